@@ -724,6 +724,35 @@ pub fn gen_doc(rng: &mut Rng, p: DocParams) -> Vec<u8> {
         2 => g.out.push('\u{FEFF}'),
         3 => g.out.push_str("\u{FEFF}<!doctype html>\n"),
         4 => g.out.push_str("<html><body>"),
+        5 => {
+            // what a page says about itself in its head: character set,
+            // content type, base, viewport, language
+            let meta = g.rng.pick(&[
+                "<meta charset=utf-8>",
+                "<meta charset=\"iso-8859-1\">",
+                "<meta charset=>",
+                "<meta charset=",
+                "<meta http-equiv=\"Content-Type\" content=\"text/html; charset=iso-8859-1\">",
+                "<meta http-equiv=Content-Type content=\"text/html; charset=\">",
+                "<meta http-equiv=refresh content=\"0; url=x\">",
+                "<?xml version=\"1.0\" encoding=\"windows-1252\"?>",
+                "<base href=\"http://example.com/\"><meta name=viewport content=\"width=device-width\">",
+            ]);
+            let pad = g.rng.pick(&[0usize, 0, 0, 990, 1000, 1003, 1010, 4080]);
+            g.out.push_str("<html lang=en><head>");
+            if pad > 0 {
+                g.out.push_str("<!--");
+                for _ in 0..pad {
+                    g.out.push('-' as char);
+                }
+                g.out.truncate(g.out.len() - 1);
+                g.out.push_str("x-->");
+            }
+            g.out.push_str(meta);
+            if !meta.ends_with('=') {
+                g.out.push_str("</head><body>");
+            }
+        }
         _ => {}
     }
     let mut guard = 0;
